@@ -1609,19 +1609,7 @@ func (vm *VM) run() (Addr, bool) {
 			fn := call.cl.fn
 			if call.status == started {
 				if vm.fn.Macro {
-					if call.renderer != vm.renderer {
-						b := fn.Body[call.pc-2].B
-						if b == ReturnString {
-							out := vm.renderer.Out().(*strings.Builder)
-							vm.setString(1, out.String())
-						} else if vm.fn.Format == ast.FormatMarkdown && ast.Format(b) == ast.FormatHTML {
-							out := vm.renderer.Out().(*bytes.Buffer)
-							err := vm.env.conv(out.Bytes(), call.renderer.out)
-							if err != nil {
-								panic(outError{err})
-							}
-						}
-					}
+					vm.endMacro(call, vm.fn, vm.renderer)
 					vm.renderer = call.renderer
 				} else if regs := vm.fn.FinalRegs; regs != nil {
 					vm.finalize(vm.fn.FinalRegs)
